@@ -10,7 +10,7 @@ theorem good_set_cv {e : Env} {as : State} {i : Nat} {w : W} (h : Good e as i w)
   have rn := h.rn
   have hlen : j < w.nd.cv.length := by rw [rn.lens.2.2.1]; exact hj
   refine ⟨h.g, ⟨rn.my, by simpa [W.upd] using rn.lens, rn.chain, rn.height, rn.phase, rn.pidx, rn.prep, rn.commit, ?_,
-    rn.lastCv, rn.cache, rn.own⟩, h.outs, h.st, h.lt⟩
+    rn.lastCv, rn.cache, rn.own⟩, h.outs, h.blk, h.st, h.lt⟩
   intro j' m' hj'
   by_cases hjm : j' = j
   · subst hjm
@@ -125,7 +125,7 @@ theorem prog_sendPrepareRequest {e : Env} {as : State} {i : Nat} {w : W} (h : Go
   have gmid : Good e (apply (cfgOf e) as (.sendPrepReq i w.fresh)) i (sprMid e w) := by
     unfold sprMid
     simp only
-    refine ⟨h.g.ext x1, ?_, ?_, h.st, h.lt⟩
+    refine ⟨h.g.ext x1, ?_, ?_, fun b' s hp => h.blk b' s (by simpa [bcast, W.emit, W.upd] using hp), h.st, h.lt⟩
     · refine ⟨rn.my, by simpa [bcast, W.emit, W.upd] using rn.lens, by rw [hc1]; exact rn.chain, by rw [hh1]; exact rn.height,
         ?_, rn.pidx, ?_, ?_, ?_, ?_, ?_, ?_⟩
       · left
